@@ -4,4 +4,8 @@ from ..rules import par
 
 def check(ctx, rep):
     par.par_6(ctx, rep)
+    # the token filter is inert before the first error only if its state starts empty in every parse: no parser state
+    # is shared between parses (class-level containers, mutable defaults)
+    from ..rules import eff as _eff
+    _eff.eff_1(ctx, rep, only=[('parso/grammar.py', 'Grammar.parse')], minimum=20)
     rep.note('Not decided: equality of the two result trees as values.')
